@@ -4,6 +4,7 @@ package main
 
 import (
 	"fmt"
+	"os"
 	"go/token"
 	"go/types"
 	"sort"
@@ -22,6 +23,16 @@ type pathEnd struct{}
 
 // run executes the state until all paths starting from it have ended.
 func (e *Engine) run(st *State) {
+	defer func() {
+		if os.Getenv("GOVC_TRACE") != "" && st.quiet == 0 && len(st.frames) > 0 {
+			fr := st.top()
+			ins := ""
+			if fr.ip > 0 && fr.ip <= len(fr.block.Instrs) {
+				ins = fr.block.Instrs[fr.ip-1].String()
+			}
+			fmt.Fprintf(os.Stderr, "PATH-END depth=%d fn=%s block=%d ip=%d last=%q\n", len(st.frames), fr.fn.Name(), fr.block.Index, fr.ip, ins)
+		}
+	}()
 	for !st.dead {
 		fr := st.top()
 		if fr.ip >= len(fr.block.Instrs) {
